@@ -44,8 +44,10 @@ pub struct Lit {
 
 const SIZE_UNITS: [(&str, u32); 9] = [("b", 0), ("kb", 1), ("mb", 2), ("gb", 3), ("tb", 4), ("kib", 1), ("mib", 2), ("gib", 3), ("tib", 4)];
 const TIME_UNITS: [&str; 14] = ["second", "seconds", "minute", "minutes", "hour", "hours", "day", "days", "week", "weeks", "month", "months", "year", "years"];
-const JUNK_UNITS: [&str; 24] = [
+const JUNK_UNITS: [&str; 36] = [
     "kbb", "k b", "das", "µs", "kbs", "bytes", "sec", "hrs", "k", "x", "secondss", "kb1", "_", "e",
+    // near misses built from the letters of the documented units
+    "ib", "IB", "i", "bb", "bib", "kiib", "kbi", "gi", "tbb", "s", "ss", "ds",
     // characters that case-fold onto ASCII letters (KELVIN SIGN -> k, LONG S -> s, dotless/dotted i)
     "\u{212A}b", "\u{212A}iB", "\u{17F}econds", "m\u{131}nutes", "m\u{130}nutes", "week\u{17F}", "M\u{212A}", "\u{ff4b}\u{ff42}", "ｋｂ", "𝐤𝐛",
 ];
@@ -86,7 +88,8 @@ pub fn strategy() -> impl Strategy<Value = Lit> {
         prop::bool::ANY,
         number_strategy(),
         prop_oneof![8 => Just(Deco::None), 1 => Just(Deco::Minus), 1 => Just(Deco::Plus), 1 => Just(Deco::Fraction), 1 => Just(Deco::Exponent), 1 => Just(Deco::LeadingZeros)],
-        prop::sample::select(vec!["", "", " ", "  ", "\t", " \t "]),
+        // (the last four are whitespace for Unicode, not for ASCII)
+        prop::sample::select(vec!["", "", " ", "  ", "\t", " \t ", "", " ", "\u{a0}", "\u{3000}", " \u{2009}", "\u{205f}"]),
         prop_oneof![3 => Just(0u8), 8 => Just(1u8), 2 => Just(2u8), 1 => Just(3u8), 2 => Just(4u8)],
         any::<u16>(),
         any::<u32>(),
@@ -386,7 +389,7 @@ pub fn replay(part: &str, case: serde_json::Value) -> Option<CaseResult> {
 pub fn meta() -> EvidenceMeta {
     EvidenceMeta {
         level: "exploration",
-        rule: "cases = literals composed of a number (0, 1, every overflow threshold floor(MAX/1024^k)-1..+2 for MAX in {u64::MAX, i64::MAX}, 2^k+-1, random 1-20 digits, 21-30 digits, no digits at all, Unicode-numeric characters that are no ASCII digits), a decoration (none, '-', '+', '.5', 'e3', leading zeros), whitespace before the unit (none/spaces/tab/mixed), a unit (every documented spelling in random letter case, none, junk, or a documented unit followed by further words), optional outer whitespace, in one of seven carriers (YAML plain/quoted string, JSON string, TOML string, YAML/JSON/TOML bare numeric scalar), for SizeTriggerConfig (observed through Debug) and TimeTriggerInterval; oracle = u128 reference: value == number x unit (powers of 1024; named interval unit) when it fits u64 / i64, Err exactly when the statement demands rejection (negative, fractional, unknown unit, overflow); accept-either where the statement is silent (leading zeros, '+', outer whitespace, float-valued exponent scalars): an error is fine, a value must be exact; never a panic, never a wrapped value. refresh_rate (humantime): no panic, documented 'N seconds' form exact. non-trivial = number within 1 of an overflow threshold, or mixed-case unit, or whitespace before the unit, or an integer scalar above i64::MAX".into(),
+        rule: "cases = literals composed of a number (0, 1, every overflow threshold floor(MAX/1024^k)-1..+2 for MAX in {u64::MAX, i64::MAX}, 2^k+-1, random 1-20 digits, 21-30 digits, no digits at all, Unicode-numeric characters that are no ASCII digits), a decoration (none, '-', '+', '.5', 'e3', leading zeros), whitespace before the unit (none/spaces/tab/mixed/no-break space/ideographic space/thin space), a unit (every documented spelling in random letter case, none, junk, or a documented unit followed by further words), optional outer whitespace, in one of seven carriers (YAML plain/quoted string, JSON string, TOML string, YAML/JSON/TOML bare numeric scalar), for SizeTriggerConfig (observed through Debug) and TimeTriggerInterval; oracle = u128 reference: value == number x unit (powers of 1024; named interval unit) when it fits u64 / i64, Err exactly when the statement demands rejection (negative, fractional, unknown unit, overflow); accept-either where the statement is silent (leading zeros, '+', outer whitespace, float-valued exponent scalars): an error is fine, a value must be exact; never a panic, never a wrapped value. refresh_rate (humantime): no panic, documented 'N seconds' form exact. non-trivial = number within 1 of an overflow threshold, or mixed-case unit, or whitespace before the unit, or an integer scalar above i64::MAX".into(),
         assumptions: vec!["TOML integers are 64-bit signed: larger integer scalars in TOML are unsettled (carrier limit)".into()],
         mutants_caught: vec![],
     }
